@@ -45,6 +45,7 @@ type Prog struct {
 	expandedFns map[string]bool      // helpers expanded at one or more call sites
 	collect     map[*types.Func]bool // anchor collection mode
 	liveList    []*FuncInfo
+	quiet       map[*FuncInfo]bool
 }
 
 // FuncInfo is one source function (declaration) of a repo package.
